@@ -127,14 +127,24 @@ let rec gen (s : schema) (size : int) : val0 =
           end) (klist_to_list fs))
   | SVar alts -> let l = vlist_to_list alts in let i = below (List.length l) in
     let (_, fs) = List.nth l i in VVar (nat_of_int i, List.map (fun f -> gen f (size - 1)) (slist_to_list fs))
-  | SArrOf (lo, s') -> let n = coll_len (int_of_n lo) size in VList (List.init n (fun _ -> gen s' (size - 2)))
+  | SArrOf (lo, s') ->
+    (* long arrays of whole transaction bodies / witness sets only cost time (the 24/25 boundary of the array head is
+       exercised on every lighter element type) *)
+    let heavy = (match s' with SMap fs -> List.length (klist_to_list fs) > 6 | _ -> false) in
+    let n = coll_len (int_of_n lo) size in
+    let n = if heavy then min n 3 else n in
+    VList (List.init n (fun _ -> gen s' (size - 2)))
   | SSetOf s' -> let n = coll_len 0 size in VList (dedup s' (List.init n (fun _ -> gen s' (size - 2))))
   | SMapOf (lo, ord, k, v) ->
     let n = coll_len (int_of_n lo) size in
     let l = List.init n (fun _ -> (gen k (size - 2), gen v (size - 2))) in
+    (* a Vec-backed map may repeat a key *)
+    (* (repeated keys adjacent: that is how every writer emits them, PlutusMap groups the values of a key) *)
     let l = dedup_keys k l in
+    let l = if ord = KMulti && below 3 = 0 then (match l with (a, b) :: r -> (a, b) :: (a, gen v (size - 2)) :: r | [] -> []) else l in
     let l = match ord with
       | KInsertion -> l
+      | KMulti -> l
       | KBytewise -> List.sort (fun (a, _) (b, _) -> cmp_bytes (enc k a) (enc k b)) l
       | KRewardAddr -> List.sort (fun (a, _) (b, _) -> cmp_bytes (reward_sort_key (enc k a)) (reward_sort_key (enc k b))) l in
     VMap l
@@ -152,13 +162,23 @@ let rec gen (s : schema) (size : int) : val0 =
     let id = int_of_n id in
     if id = 1 then VBytes (gen_address ())
     else if id = 2 then VBytes (gen_reward_address ())
+    else if id = 6 then VBytes (n_of_int (1 + below 255) :: gen_bytes (match below 4 with 0 -> 8 | 1 -> 63 | 2 -> 64 + below 3 | _ -> 8 + below 120))
+    else if id = 7 then (match gen s' size with
+        | VList (_ :: rest) -> VList (VNat (n_of_bz (if below 3 = 0 then BZ.of_int 128 else BZ.add (BZ.of_int 128) (BZ.shift_right (bz_u64 ()) (1 + below 63)))) :: rest)
+        | v -> v)
     else begin
       (* rejection sampling into the writer image (Coq predicate writer_form) *)
       let v = ref (gen s' size) in
       let tries = ref 0 in
-      while not (writer_form (n_of_int id) !v) && !tries < 50 do v := gen s' (max size 1); incr tries done;
-      !v
+      while not (writer_form (n_of_int id) !v) && !tries < 50 do v := gen s' (max size 2 + !tries / 10); incr tries done;
+      (* a multi-asset value is only written when some policy has an asset: make one if sampling found none *)
+      if id = 5 && not (writer_form (n_of_int id) !v) then
+        VList [VNat (n_of_bz (gen_uint 64)); VMap [(VBytes (gen_bytes 28), VMap [(VBytes (gen_bytes (below 33)), VNat (n_of_bz (gen_uint 64)))])]]
+      else !v
     end
+  | SArrOpt (fs, o) ->
+    let l = List.map (fun f -> gen f (size - 1)) (slist_to_list fs) in
+    if below 2 = 0 then VAlt (nat_of_int 0, VList l) else VAlt (nat_of_int 1, VList (gen o (size - 1) :: l))
   | SBBytes -> let len = (match below 8 with 0 -> 0 | 1 -> 1 | 2 -> 63 | 3 -> 64 | 4 -> 65 | 5 -> 128 | 6 -> 129 + below 100 | _ -> below 64) in
     VBytes (gen_bytes len)
 and dedup s' l =
@@ -167,7 +187,6 @@ and dedup s' l =
 and dedup_keys k l =
   let seen = Hashtbl.create 16 in
   List.filter (fun (a, _) -> let e = enc k a in if Hashtbl.mem seen e then false else (Hashtbl.add seen e (); true)) l
-
 
 let gen_mode seed tier out =
   st := Int64.of_string seed;
@@ -246,7 +265,7 @@ let legacy_output_predict (bs : n list) : string option =
   if not (is_major 4 bs) then None else
   match legacy_output real_alloc (dec value) false bs with
   | Ok (((a, v), h), _) ->
-    if wfv value v then begin
+    if wfv value v && refined writer_form value v then begin
       let ab = addr_to_bytes a in
       (* the writer emits the map form only for inline datum / script ref: never here *)
       let body = bstr ab @ enc value v @ (match h with Some d -> bstr d | None -> []) in
